@@ -454,17 +454,44 @@ def rand_props(rng, n, kmax=3, **kw):
 
 
 def rand_ids(rng, n_max=40, e_max=80):
+    """node ids in ARBITRARY order: values around the dtype limits, or — a third of the time — a permutation of
+    0..N-1 (shuffled / descending / interleaved / one transposition), the case in which a reader is tempted to take
+    positions for ids; edges mostly without repetitions (also not reversed) so that graph libraries can hold them."""
     idt = rng.choice(INT_DTYPES)
     ii = np.iinfo(idt)
     span = int(ii.max) - int(ii.min) + 1
     n = rng.choice([0, 0, 1, 1, 2, 3, 5, 8, rng.randint(0, n_max)])
-    n = min(n, span)
-    pool = {int(ii.min), int(ii.max), 0, 1, int(ii.max) - 1}
-    while len(pool) < n:
-        pool.add(rng.randint(int(ii.min), int(ii.max)))
-    nodes = rng.sample(sorted(pool), n)
-    e = 0 if n == 0 else rng.choice([0, 0, 1, 2, 4, rng.randint(0, e_max)])
-    edges = [[rng.choice(nodes), rng.choice(nodes)] for _ in range(e)]
+    n = min(n, span, int(ii.max) + 1 if rng.random() < 0.5 else span)
+    if n >= 2 and n - 1 <= int(ii.max) and rng.random() < 0.35:
+        nodes = list(range(n))
+        mode = rng.choice(["shuffle", "descending", "interleaved", "swap"])
+        if mode == "shuffle":
+            rng.shuffle(nodes)
+        elif mode == "descending":
+            nodes.reverse()
+        elif mode == "interleaved":
+            nodes = nodes[::2] + nodes[1::2]
+        else:
+            i = rng.randrange(n - 1)
+            nodes[i], nodes[i + 1] = nodes[i + 1], nodes[i]
+        if nodes == sorted(nodes):
+            nodes.reverse()
+    else:
+        pool = {int(ii.min), int(ii.max), 0, 1, int(ii.max) - 1}
+        while len(pool) < n:
+            pool.add(rng.randint(int(ii.min), int(ii.max)))
+        nodes = rng.sample(sorted(pool), n)
+    e = 0 if n == 0 else rng.choice([0, 1, 1, 2, 4, rng.randint(0, e_max)])
+    if rng.random() < 0.85:
+        seen, edges = set(), []
+        for _ in range(e):
+            u, v = rng.choice(nodes), rng.choice(nodes)
+            if u != v and (u, v) not in seen and (v, u) not in seen:
+                seen.add((u, v))
+                edges.append([u, v])
+    else:
+        edges = [[rng.choice(nodes), rng.choice(nodes)] for _ in range(e)]
+    e = len(edges)
     return ({"dtype": idt, "shape": [n], "flat": [jint(x) for x in nodes]},
             {"dtype": idt, "shape": [e, 2], "flat": [jint(x) for r in edges for x in r]})
 
@@ -494,11 +521,36 @@ def set_layouts(rng, g, p=0.4):
     return g
 
 
+def share_names(rng, g, p=0.3):
+    """node and edge properties may SHARE names (they live in different groups): rename edge properties to node
+    property names — same or different dtype, fixed or variable length on either side"""
+    if g["node_props"] and g["edge_props"] and rng.random() < p:
+        free = [nm for nm, _ in g["node_props"]]
+        rng.shuffle(free)
+        taken = {nm for nm, _ in g["edge_props"]}
+        for pr in g["edge_props"]:
+            if free and rng.random() < 0.8 and free[-1] not in taken:
+                taken.discard(pr[0])
+                pr[0] = free.pop()
+                taken.add(pr[0])
+    return g
+
+
 def rand_geff(rng, n_max=40, e_max=80, kmax=3, **kw):
     nid, eid = rand_ids(rng, n_max, e_max)
-    return set_layouts(rng, {"node_ids": nid, "edge_ids": eid,
-                             "node_props": rand_props(rng, nid["shape"][0], kmax, **kw),
-                             "edge_props": rand_props(rng, eid["shape"][0], kmax, **kw)})
+    g = {"node_ids": nid, "edge_ids": eid,
+         "node_props": rand_props(rng, nid["shape"][0], kmax, **kw),
+         "edge_props": rand_props(rng, eid["shape"][0], kmax, **kw)}
+    if rng.random() < 0.12 and nid["shape"][0] and eid["shape"][0]:
+        # both sides variable length under one name (different element dtypes)
+        g["node_props"] = [kp for kp in g["node_props"] if kp[0] != "shared"] + [["shared", rand_prop(rng, nid["shape"][0], dtypes=["int8", "float64", "uint16"])]]
+        g["edge_props"] = [kp for kp in g["edge_props"] if kp[0] != "shared"] + [["shared", rand_prop(rng, eid["shape"][0], dtypes=["float32", "int64", "bool"])]]
+        for key, k in (("node_props", nid["shape"][0]), ("edge_props", eid["shape"][0])):
+            pr = g[key][-1][1]
+            if "obj" not in pr["values"] and rng.random() < 0.8:
+                dt = pr["values"]["dtype"]
+                pr["values"] = {"obj": [rand_array(rng, dt, [rng.choice([0, 1, 2, 3])]) for _ in range(k)]}
+    return set_layouts(rng, share_names(rng, g))
 
 
 def build_geff(g):
